@@ -149,7 +149,7 @@ func c13Shapes() []podShape {
 
 type nodeShape struct{ CPU, Mem string } // "" = no allocatable
 
-var c13Nodes = []nodeShape{{"1000m", "4Gi"}, {"3900m", "16G"}, {"", ""}}
+var c13Nodes = []nodeShape{{"1000m", "4Gi"}, {"3900m", "16G"}, {"", ""}, {"7.5", "7.5Gi"}}
 
 func (n nodeShape) build(name string) *v1.Node {
 	nd := &v1.Node{ObjectMeta: metav1.ObjectMeta{Name: name}}
@@ -275,6 +275,15 @@ func c13Grid(t *testing.T, tier string, shard, shards int, c *h.Collector) {
 					nodes = append(nodes, c13Nodes[i].build(fmt.Sprint("n", k)))
 				}
 				nc, err := k8s.CalculateNodesCapacity(nodes, nil)
+				// the same node objects are listed scan after scan: a second and third evaluation must
+				// give the same totals (the calculators must not write into the cached objects)
+				for rep := 0; rep < 2 && err == nil; rep++ {
+					again, err2 := k8s.CalculateNodesCapacity(nodes, nil)
+					if err2 != nil || again.Total != nc.Total {
+						report("C13/capacity-changes-on-repeated-evaluation", fmt.Sprintf("nodes %v: capacity %dm / %dB on the first evaluation, %dm / %dB on a later one over the same objects", order, nc.Total.MilliCPU, nc.Total.Memory, again.Total.MilliCPU, again.Total.Memory), map[string]any{"nodes": order})
+						break
+					}
+				}
 				c.R.Evaluations++
 				d := map[string]any{"pods": desc(), "nodes": order}
 				if err != nil {
@@ -305,6 +314,7 @@ func c13Grid(t *testing.T, tier string, shard, shards int, c *h.Collector) {
 		c13EndToEnd(t, c)
 		c13Replaced(t, c)
 		c13Large(c)
+		c13ManyPods(c)
 	}
 	if len(c.R.Samples) < 1 {
 		c.R.Samples = append(c.R.Samples, map[string]any{"pods": shapes[len(shapes)/2].String(), "note": "one of the enumerated pod shapes"})
@@ -443,6 +453,39 @@ func c13Replaced(t *testing.T, c *h.Collector) {
 	}
 }
 
+// c13ManyPods: request totals for hundreds to thousands of pods (one big pending pod at the head, in
+// the middle or at the tail of the list).
+func c13ManyPods(c *h.Collector) {
+	small := podShape{Containers: []int{1}} // 100m / 64Mi
+	big := podShape{Containers: []int{4, 4}, Overhead: true}
+	sc, sm := small.exact()
+	bc, bm := big.exact()
+	for _, n := range []int{255, 256, 257, 511, 512, 513, 700, 1024, 1025, 1300, 4097} {
+		for _, pos := range []int{0, n / 2, n - 1} {
+			pods := make([]*v1.Pod, 0, n)
+			for i := 0; i < n; i++ {
+				sh := small
+				if i == pos {
+					sh = big
+				}
+				p := sh.build(fmt.Sprint("m", i))
+				if i == pos {
+					p.Status.Phase = v1.PodPending
+				}
+				pods = append(pods, p)
+			}
+			u, err := k8s.CalculatePodsRequestedUsage(pods)
+			c.R.Evaluations++
+			c.Nontrivial(fmt.Sprint("many/", n, pos))
+			wantCPU, wantMem := int64(n-1)*sc+bc, int64(n-1)*sm+bm
+			if err != nil || u.Total.MilliCPU != wantCPU || u.Total.Memory != wantMem || u.LargestPendingCPU.MilliCPU != bc || u.LargestPendingMemory.Memory != bm {
+				c.Report(h.Found{Violation: h.Violation{Prop: "C13", Sig: "C13/request-total-many-pods", Msg: fmt.Sprintf("%d pods (big pending pod at %d): computed %dm / %dB (largest pending %dm / %dB), definition gives %dm / %dB (largest pending %dm / %dB)",
+					n, pos, u.Total.MilliCPU, u.Total.Memory, u.LargestPendingCPU.MilliCPU, u.LargestPendingMemory.Memory, wantCPU, wantMem, bc, bm)}, Scenario: "c13.many", Case: map[string]any{"pods": n, "big_at": pos}})
+			}
+		}
+	}
+}
+
 // c13Large: percent for clusters of hundreds of big nodes (memory totals of 25..250 TiB).
 func c13Large(c *h.Collector) {
 	for _, n := range []int64{100, 400, 1000} {
@@ -468,8 +511,8 @@ func init() {
 	register(&Check{
 		ID:    "C13",
 		Level: "exploration",
-		Rule: "every pod shape of the universe (0..2 containers x 0..2 init containers over a 5-value request alphabet with absent, milli, fractional, binary and decimal notations, overhead on/off: 1922 shapes), every pair / triple over fixed sub-universes, every node multiset of <= 3 over {1000m/4Gi, 3900m/16G, no allocatable}, in every permutation of both lists, through the real calculators, compared with an independent exact parser; " +
-			"end to end: single scans over every order of a mixed node list (untainted, tainted, cordoned, force-tainted, odd sizes) reading the request/capacity/percent gauges; two-scan histories in which a pod is re-created under the same name with another shape; clusters of 100..1000 nodes of 256 GiB; non-trivial = every enumerated multiset; distinct by its members",
+		Rule: "every pod shape of the universe (0..2 containers x 0..2 init containers over a 5-value request alphabet with absent, milli, fractional, binary and decimal notations, overhead on/off: 1922 shapes), every pair / triple over fixed sub-universes, every node multiset of <= 3 over {1000m/4Gi, 3900m/16G, 7.5/7.5Gi, no allocatable}, in every permutation of both lists, each evaluated three times over the same objects, through the real calculators, compared with an independent exact parser; " +
+			"end to end: single scans over every order of a mixed node list (untainted, tainted, cordoned, force-tainted, odd sizes) reading the request/capacity/percent gauges; two-scan histories in which a pod is re-created under the same name with another shape; clusters of 100..1000 nodes of 256 GiB; lists of 255..4097 pods; non-trivial = every enumerated multiset; distinct by its members",
 		Grid:        c13Grid,
 		Assumptions: append([]string{"the quantity alphabet contains no value finer than a millicore or a byte (the statement does not define rounding)", "that the larger of cpu% and mem% drives decisions is decided by C06's memory-driven cases"}, commonAssumptions...),
 	})
